@@ -43,8 +43,9 @@ private:
 
   uint16_t pop()
   {
-    uint16_t value = stack[--sp];
-    sp &= 7;
+    // Wrap before indexing: with sp == 0, stack[--sp] read stack[65535].
+    sp = (sp - 1) & 7;
+    uint16_t value = stack[sp];
     return value;
   }
 
